@@ -20,7 +20,7 @@ def build(ctx):
     import subprocess
     for i, f in enumerate(FILES):
         o = os.path.join(ctx.work, "str%d.o" % i)
-        cmd = ["gcc", "-std=gnu11", "-g", "-O1", "-fsanitize=address", "-fno-omit-frame-pointer", "-w", "-fno-builtin", "-I" + R,
+        cmd = ["gcc", "-std=gnu11", "-g", "-O1", "-fsanitize=address", "-fno-omit-frame-pointer", "-w", "-fno-builtin", "-D_GNU_SOURCE", "-Werror=implicit-function-declaration", "-I" + R,
                "-include", os.path.join(core.HARNESS, "rename_string.h"), "-c", os.path.join(R, "compat/libc/string", f + ".c"), "-o", o]
         procs.append((cmd, subprocess.Popen(cmd, stdout=subprocess.PIPE, stderr=subprocess.STDOUT)))
         objs.append(o)
@@ -47,6 +47,9 @@ def cases_for(rng, m, fn):
         la, lb = slen(m, a), slen(m, b)
         if fn in UNARY: return (a, 0, 0)
         if fn in CHARFN: return (a, rng.choice([0, m[rng.randrange(N)], 97, 255, 256, 256 + 97, rng.randrange(256)]), 0)
+        if fn in ("strtok", "strtok_r"):
+            if disjoint(a, la + 1, b, lb + 1): return (a, b, 0)
+            continue
         if fn in TWOSTR: return (a, b, 0)
         if fn in TWOSTRN: return (a, b, n)
         if fn == "strnlen": return (a, 0, rng.choice([0, 1, la, la + 1, la + 5, n]))
@@ -89,14 +92,14 @@ def check(ctx):
     lines = []
     # the domain TLC enumerated: every arena of 6 bytes over {0,'a','A',0xFF} ending in 0
     small = [list(x) + [0] for x in itertools.product([0, 97, 65, 255], repeat=5)]
-    per = 1200 if ctx.thorough else 250
+    per = 2500 if ctx.thorough else 600
     for fn in ALLFN:
         for _ in range(per):
             m = rng.choice(small)
             c = cases_for(rng, m, fn)
             if c: lines.append("Str %s %s %d %d %d %d" % (fn, fmt(m), c[0], c[1], c[2], rng.choice([0, 0, 1, 3])))
     # random arenas up to 80 bytes over all byte values, every alignment (the word-copy path of memcpy needs n >= 32)
-    per = 1200 if ctx.thorough else 250
+    per = 2500 if ctx.thorough else 600
     for fn in ALLFN:
         for _ in range(per):
             N = rng.choice([1, 2, 3, 8, 9, 16, 33, 40, 64, 80])
